@@ -15,7 +15,11 @@ void h_u_genpatch_b(void)
     cJSON *from, *to, *patches; int v[6], i, status, same;
     VF_INIT();
     global_hooks.allocate = vf_alloc; global_hooks.deallocate = vf_free; global_hooks.reallocate = NULL;
+#ifdef GP_CONCRETE   /* fully concrete scenario: CBMC executes the real code on one input (memory safety, ledger, round trip on that input only) */
+    for (i = 0; i < 6; i++) { v[i] = (i * 7 + GP_CONCRETE) % 3; }
+#else
     for (i = 0; i < 6; i++) { v[i] = nondet_int(); __CPROVER_assume(v[i] >= 0 && v[i] <= 2); }
+#endif
 #if GP_SCEN == 0      /* objects: common key, key only in from, key only in to (unsorted order on purpose) */
     from = mknode(cJSON_Object); append(from, num('b', v[0])); append(from, num('a', v[1]));
     to = mknode(cJSON_Object); append(to, num('a', v[2])); append(to, num('c', v[3]));
